@@ -113,6 +113,14 @@ struct XcmcJob {
                 if (r.rc >= 0) r.bytes.assign(buf, r.rc);
             }
             j->res.push_back(r);
+            if (r.rc < 0 && (r.err == EAGAIN || r.err == ETIMEDOUT)) {
+                // the client library gave up waiting (its own time-out, on a loaded machine): the reply
+                // may still come and would be taken for the answer to the next request - a client that
+                // wants to go on starts a new session
+                xcmc_close(s);
+                s = xcmc_open(j->pid, j->sock_ref);
+                if (!s) { j->open_err = errname(errno); j->done = 1; return nullptr; }
+            }
         }
         xcmc_close(s);
         j->done = 1;
